@@ -48,7 +48,7 @@ class CellTrainer(Module):
         Yields:
             Monitor: added monitors.
         """
-        return self.monitor_pool_.monitors()
+        return self.monitor_pool_.monitors
 
     @property
     def named_monitors(self) -> Iterator[tuple[tuple[str, str], Monitor]]:
@@ -58,7 +58,7 @@ class CellTrainer(Module):
             tuple[tuple[str, str], Monitor]: tuple of an added monitor and a tuple
             of the cell name and monitor name corresponding to it.
         """
-        return self.monitor_pool_.named_monitors()
+        return self.monitor_pool_.named_monitors
 
     def named_monitors_of(self, cell: str) -> Iterator[tuple[str, Monitor]]:
         r"""Monitors associated with a given cell.
